@@ -19,6 +19,15 @@ grep -qE "^\+\+\+ b/(xlsx/)" $P && sel="$sel 17"
 grep -qE "^\+\+\+ b/(pptx/|epubdoc/|xlsx/reader.go)" $P && sel="$sel 18"
 grep -qE "^\+\+\+ b/(htmldoc/)" $P && sel="$sel 19"
 grep -qE "^\+\+\+ b/(layout/|text/|extractor.go)" $P && sel="$sel 09"
+grep -qE "^\+\+\+ b/(rag/)" $P && sel="$sel 12 13 14"
+grep -qE "^\+\+\+ b/(graphicsstate/|contentstream/)" $P && sel="$sel 03 07 01 06 08"
+grep -qE "^\+\+\+ b/(text/|font/)" $P && sel="$sel 07 01 09 03"
+grep -qE "^\+\+\+ b/(layout/)" $P && sel="$sel 09 11"
+grep -qE "^\+\+\+ b/([a-z_]*\.go)" $P && sel="$sel 10 11 12 09"
+grep -qE "^\+\+\+ b/(docx/|odt/)" $P && sel="$sel 16 15"
+grep -qE "^\+\+\+ b/(core/|reader/|pages/)" $P && sel="$sel 01 04 05 06 10"
+grep -qE "^\+\+\+ b/(model/)" $P && sel="$sel 10 15 12"
+grep -qE "^\+\+\+ b/(xlsx/|pptx/|epubdoc/)" $P && sel="$sel 17 18 15"
 WT=$(mktemp -d /tmp/cv-XXXXXX); rmdir "$WT"; OUT=$(mktemp -d /tmp/cvout-XXXXXX)
 git -C /repo worktree add --detach "$WT" HEAD -q || exit 3
 if ! patch -p1 -s -f -d "$WT" -i "$P" >/dev/null 2>&1; then echo "$V APPLY-FAILED"; git -C /repo worktree remove --force "$WT"; rm -rf "$OUT"; exit 0; fi
